@@ -260,7 +260,7 @@ def run(ctx):
         k = x.get("key")
         first = seen_rep.setdefault((i, which), k)
         if first != k:
-            ctx.violation("the same target state hashed repeatedly receives different cache keys (depends on map iteration order)",
+            ctx.violation("the same target state hashed repeatedly receives different cache keys (the key depends on something outside the state: map iteration order, workspace location, time, …)",
                           {"kind": "oracle", "oracle": "key is a function of the state", "state1": pairs[i][which], "state2": pairs[i][which], "key1": first, "key2": k},
                           signature="nondeterministic-key")
     ctx.coverage["determinism_repeats"] = len(rep_reqs)
